@@ -26,7 +26,9 @@ ASSUMPTIONS = [
 
 CHANNELS = ["init_kw", "config_bare", "config_long", "config_obj", "parse_commit", "parse_nocommit", "config_assign",
             # the keyword against a config that names another layout; Config objects built without any text; a one-off other layout in between
-            "init_kw_over_config_layout", "parse_over_config_layout", "config_from_kwargs", "config_from_dict", "config_attribute", "init_kw_after_one_off_layout"]
+            "init_kw_over_config_layout", "parse_over_config_layout", "config_from_kwargs", "config_from_dict", "config_attribute", "init_kw_after_one_off_layout",
+            # later activity on the object, or on a Config object it shares, that names no layout leaves the request in force
+            "init_kw_then_unrelated_config", "config_then_unrelated_config", "init_kw_then_deduce_layout", "shared_config_object_used_with_other_layout"]
 OTHER = configs.config_values(exclude=("wait_to_parse", "layout"))
 
 REQ_CASE = st.fixed_dictionaries({"text": soup.ANY_TEXT, "channel": st.sampled_from(CHANNELS), "cfg": OTHER})
@@ -76,6 +78,27 @@ def oracle_requested(c):
     elif ch == "config_attribute":
         cobj = Config(other)
         cobj.layout = "copy_all"
+        d = PLSSDesc(text, config=cobj)
+        tracts, layout = d.tracts, d.current_layout
+    elif ch == "init_kw_then_unrelated_config":
+        d = PLSSDesc(text, layout="copy_all", config=other, wait_to_parse=True)
+        d.config = join(other, "clean_qq")
+        d.parse()
+        tracts, layout = d.tracts, d.current_layout
+    elif ch == "config_then_unrelated_config":
+        d = PLSSDesc(text, config=join(other, "copy_all"))
+        d.config = join(other, "n,w")
+        d.parse()
+        tracts, layout = d.tracts, d.current_layout
+    elif ch == "init_kw_then_deduce_layout":
+        d = PLSSDesc(text, layout="copy_all", config=other, wait_to_parse=True)
+        d.deduce_layout()
+        d.deduce_layout(candidates=["TRS_desc", "desc_STR"])
+        d.parse()
+        tracts, layout = d.tracts, d.current_layout
+    elif ch == "shared_config_object_used_with_other_layout":
+        cobj = Config(join(other, "copy_all"))
+        PLSSDesc("T154N-R97W Sec 14: NE/4, Sec 15: W/2", config=cobj, layout="TRS_desc")
         d = PLSSDesc(text, config=cobj)
         tracts, layout = d.tracts, d.current_layout
     elif ch == "init_kw_after_one_off_layout":
